@@ -37,6 +37,7 @@ def check(text: str):
         v.append("last line is not ===END===")
     in_zone = None
     prev_indent = 0
+    openers = []   # indentation of the lines that opened a still-open multi-line list
     for n, line in enumerate(body, start=i + 1):
         m = FENCE.match(line)
         if in_zone is not None:
@@ -66,6 +67,18 @@ def check(text: str):
         cpos = code.find("//")
         if cpos >= 0:
             code = code[:cpos]                  # drop comment
+        # multi-line list layout: items one level (two spaces) deeper than the line that opened the bracket,
+        # the closing bracket back at the opener's indentation
+        stripped = code.strip()
+        if openers:
+            if stripped in ("]", "],"):
+                if ind != openers[-1]:
+                    v.append(f"line {n}: closing bracket at indentation {ind}, its list was opened at {openers[-1]}")
+                openers.pop()
+            elif ind != openers[-1] + 2:
+                v.append(f"line {n}: list item at indentation {ind}, expected {openers[-1] + 2} (two spaces per level)")
+        if stripped.endswith("[") and stripped.count("[") > stripped.count("]"):
+            openers.append(ind)
         if re.search(r"->|<->|~|\||&|#", code):
             v.append(f"line {n}: ASCII operator alias outside strings/comments: {code.strip()!r}")
         if re.search(r"(?<![eE0-9])\+|(?<![eE])\+", code) and not re.search(r"\d[eE]\+\d", code):
